@@ -124,6 +124,11 @@ def _run_tool(tool, lines, timeout=1800, env=None):
     """run `tool` on the given case lines, sharded over NCPU processes; returns output lines"""
     if not lines:
         return []
+    save = os.environ.get('LZ_SAVE_CASES')
+    if save and 'lzrs' in tool:
+        with open(save, 'a') as f:
+            for l in lines:
+                f.write(l + '\n')
     n = len(lines)
     # shard by cumulative size so that big cases spread out
     shards = [[] for _ in range(min(NCPU, n))]
